@@ -4,6 +4,7 @@
   operations the file system accepts — inside the tree or on entries that have left it.
 -/
 import WD.Proofs.Pipeline.Theorems
+import WD.Proofs.Pipeline.FlatSpec
 /-
   `_partial`: all initial trees, all histories of valid operations, recursive watch, in the regime "the stream
   drains after every operation"; library threads other than the inotify reader (their interplay is C04–C06, C12)
@@ -18,6 +19,19 @@ theorem no_crash_partial (fs0 : FS) (hwf : fs0.WF) (full : Bool) (ops : List Op)
     ((Sys.start fs0 true full).run ops).1.crashed = false := by
   obtain ⟨inv, hs, hc, _, _⟩ := start_rec fs0 hwf full
   exact (run_rec _ ops inv hs hc hv).2.1
+
+/-- the same for a non-recursive watch -/
+theorem no_crash_nonrecursive_partial (fs0 : FS) (hwf : fs0.WF) (full : Bool) (ops : List Op)
+    (hv : allValid (Sys.start fs0 false full) ops = true) :
+    ((Sys.start fs0 false full).run ops).1.crashed = false := by
+  obtain ⟨inv, hs, hc, _, _⟩ := start_flat fs0 hwf full
+  exact (run_flat _ ops inv hs hc hv).2.1
+
+theorem stops_iff_root_removed_nonrecursive_partial (fs0 : FS) (hwf : fs0.WF) (full : Bool) (ops : List Op)
+    (hv : allValid (Sys.start fs0 false full) ops = true) :
+    ((Sys.start fs0 false full).run ops).1.stopped = true ↔ Op.rmdir ["W"] ∈ ops := by
+  obtain ⟨inv, hs, hc, _, _⟩ := start_flat fs0 hwf full
+  exact stopped_iff_flat _ ops inv hs hc hv
 
 /-- the emitter stops exactly when the watched root itself is removed -/
 theorem stops_iff_root_removed_partial (fs0 : FS) (hwf : fs0.WF) (full : Bool) (ops : List Op)
